@@ -9,6 +9,8 @@ import (
 	"fmt"
 	"net/http"
 	"net/http/httptest"
+	"strconv"
+	"strings"
 	"time"
 
 	frugal "github.com/Workiva/frugal/lib/go"
@@ -186,6 +188,9 @@ func newHTTPHandler(proto string) (entryPoint, error) {
 
 var httpLimits = []string{"0", "-1", "abc", "99999999999999999999", "16", "1", ""}
 
+var httpLengths = []string{"-1", "1000000", "1125899906842624", "72057594037927936", "9223372036854775807",
+	"274877906944", "8589934592", "2147483648", "4294967295", "5"}
+
 func (h *httpHandler) mode(idx int) string {
 	switch idx % 8 {
 	case 3:
@@ -193,10 +198,9 @@ func (h *httpHandler) mode(idx int) string {
 	case 4:
 		return "raw-body"
 	case 5:
-		if idx%16 == 5 {
-			return "b64+content-length=-1"
-		}
-		return "b64+content-length=1000000"
+		// the declared length is a size field of its own: it need not have
+		// anything to do with the bytes that follow
+		return "b64+content-length=" + httpLengths[(idx/8)%len(httpLengths)]
 	case 6:
 		return "b64+content-length=4"
 	case 7:
@@ -231,14 +235,14 @@ func (h *httpHandler) deliver(idx int, in input) outcome {
 		limit = &s
 	case "raw-body":
 		body = in.Data
-	case "b64+content-length=-1":
-		cl = -1
-	case "b64+content-length=1000000":
-		cl = 1000000
 	case "b64+content-length=4":
 		cl = 4
 	case "b64":
 	default:
+		if strings.HasPrefix(m, "b64+content-length=") {
+			cl, _ = strconv.ParseInt(m[len("b64+content-length="):], 10, 64)
+			break
+		}
 		s := m[len("b64+limit="):]
 		limit = &s
 	}
